@@ -47,7 +47,10 @@ def protocols(mpc, l, k):
     P['lsb'] = (T, allv, lambda a: mpc.lsb(a), lambda x: None)
     P['mod3'] = (T, allv, lambda a: mpc._mod(a, 3), lambda x: None)
     P['to_bits'] = (T, allv, lambda a: mpc.to_bits(a), lambda x: None)
-    P['to_bits_l1'] = (T, allv, lambda a: mpc.to_bits(a, 1), lambda x: None)      # fewer bits than the type has: the mask must still cover a
+    Tw = mpc.SecInt(l + 3)     # a wider type: asking for 1 bit of it must still mask all of a
+    wide = [-(1 << (l + 2)), -1, 0, 1, (1 << (l + 2)) - 1]
+    P['to_bits_l1'] = (Tw, wide, lambda a: mpc.to_bits(a, 1), lambda x: None)
+    P['_is_zero'] = (T, allv, lambda a: mpc._is_zero(a), lambda x: None)      # [NO07] zero test: k opened values, each a*r + (+-)u^2
     P['trailing_zeros'] = (T, allv, lambda a: mpc.trailing_zeros(a), lambda x: None)
     P['is_zero_public'] = (T, allv, lambda a: mpc.is_zero_public(a), lambda x: x == 0)       # the result itself is public
     P['reciprocal'] = (T, [v for v in allv if v], lambda a: mpc.reciprocal(a), lambda x: None)
@@ -108,6 +111,10 @@ def jobs(tier, seed):
             if n == 'mod3' and (tier == 'quick' or l > 2):
                 continue
             out.append(dict(l=l, k=k, name=n, tier=tier, seed=seed))
+    # the probabilistic zero test opens k blinded field elements: enumerable only at k = 1 (|F|^2 outcomes per round)
+    out.append(dict(l=2, k=1, name='_is_zero', tier=tier, seed=seed))
+    if tier == 'thorough':
+        out.append(dict(l=3, k=1, name='_is_zero', tier=tier, seed=seed))
     return out
 
 
@@ -148,6 +155,8 @@ def run_job(job):
         part.transitions += total_leaves
         # group inputs by public output; the secure result is never opened, so without a public result all inputs compare
         bound = Fr(4, 1 << k)
+        if name == '_is_zero':
+            bound = Fr(8, T.field.order)      # blinded by a uniform field element: essentially perfect
         for x, y in itertools.combinations(inputs, 2):
             if pub(x) != pub(y):
                 continue
